@@ -424,7 +424,8 @@ def chain_task(k, opname, order_vars, fixed=None):
         code = lambda j: sum((1 << i) for i in range(3) if bool(fixed.get('h%d_%d' % (j, i), m.get('h%d_%d' % (j, i), False))))
         rec['text'] = (' %s ' % opname).join(LEAF_KINDS[code(j)] for j in range(k))
         rec['model'] = m
-    rec['twin'] = d.holds(impl[1]) if not is_c(impl[1]) else ('sat' if impl[1] else 'unsat')
+    # reachability witness: some leaf combination parses without raising (with a pinned constant operand the value itself may be constant)
+    rec['twin'] = d.holds(b_not(rt), ok_g)
     rec.update(d.stats())
     d.close()
     return rec
